@@ -26,6 +26,10 @@ use std::hash::Hash;
 pub struct OverlappingFieldsCanBeMerged<'a> {
     named_fragments: HashMap<&'a str, &'a FragmentDefinition>,
     compared_fragments: PairSet<'a>,
+    // Pairs of fields whose sub-selections are being compared right now. With cyclic
+    // fragment spreads the comparison of two fields can reach the same two fields again;
+    // the nested comparison cannot find anything the running one does not find.
+    fields_being_compared: Vec<(&'a Field, &'a Field)>,
 }
 
 /**
@@ -211,6 +215,7 @@ impl<'a> OverlappingFieldsCanBeMerged<'a> {
         Self {
             named_fragments: HashMap::new(),
             compared_fragments: PairSet::new(),
+            fields_being_compared: Vec::new(),
         }
     }
 
@@ -431,6 +436,15 @@ impl<'a> OverlappingFieldsCanBeMerged<'a> {
         // for both collections so fields in a fragment reference are never
         // compared to themselves.
         if !field1.selection_set.items.is_empty() && !field2.selection_set.items.is_empty() {
+            if self
+                .fields_being_compared
+                .iter()
+                .any(|(f1, f2)| std::ptr::eq(*f1, field1) && std::ptr::eq(*f2, field2))
+            {
+                return None;
+            }
+            self.fields_being_compared.push((field1, field2));
+
             let conflicts = self.find_conflicts_between_sub_selection_sets(
                 schema,
                 mutually_exclusive,
@@ -440,6 +454,8 @@ impl<'a> OverlappingFieldsCanBeMerged<'a> {
                 &field2.selection_set,
                 visited_fragments,
             );
+
+            self.fields_being_compared.pop();
 
             return self.subfield_conflicts(
                 &conflicts,
